@@ -1649,7 +1649,9 @@ def main():
         for r in roots:
             fh.write(e.fn_sig(m.funcs[r]) + ';\n')
     ext = sorted(n for n in e.seen if n in m.decls and n not in m.funcs and not n.startswith('@llvm.'))
+    extdata = sorted(n[1:] for n in e.used_globals if m.globals[n].get('init') is None and 'alias' not in m.globals[n])
     sys.stderr.write('emitted %d functions, %d globals; externals: %s\n' % (len(e.used_funcs), len(e.used_globals), ' '.join(x[1:] for x in ext)))
+    sys.stderr.write('external-data: %s\n' % ' '.join(extdata))
 
 
 if __name__ == '__main__':
